@@ -15,7 +15,7 @@ RULE = ("source graphs (universe specs of all four classes carrying atom and bon
         "stereo changes of every kind) x every derivation (copy, copy-construction incl. cross-class, relabel_atoms(copy=True), "
         "subgraph, compose of one and of two graphs, enantiomer, reverse_reaction, reactant, product, JSON round trip) x every "
         "single follow-up edit (every mutator on every atom / bond / attribute key / descriptor slot / change slot present, plus "
-        "additions), applied once to the derived graph and once to the source: the normalised snapshot of the untouched side must "
+        "additions, in-place relabellings, and the in-place change of a list / nested dict stored as attribute value), applied once to the derived graph and once to the source: the normalised snapshot of the untouched side must "
         "be identical before and after.  distinct = (source, derivation, edit, side) executions")
 ASSUMPTIONS = ["sharing of immutable descriptor objects is allowed; only behaviour through the public API decides",
                "an edit that raises on its target is skipped (counted)"]
@@ -109,6 +109,13 @@ def edits(m):
         ed.append(["remove_atom", a])
         ed.append(["add_atom", a, "Ge"])
     ed.append(["add_atom", new, "C"])
+    # in-place renaming: descriptor objects shared between source and derived graph must not be rewritten
+    if ids:
+        ed.append(["relabel_atoms", {"map": [[ids[0], new + 1]]}])
+        ed.append(["relabel_atoms", {"map": [[a, a + 1000] for a in ids]}])
+    if len(ids) >= 2:
+        ed.append(["relabel_atoms", {"map": [[ids[0], ids[1]], [ids[1], ids[0]]]}])
+        ed.append(["relabel_atoms", {"map": [[ids[-1], new + 2]]}])
     for b, d in m.bonds.items():
         x, y = sorted(b)
         ed.append(["set_bond_attribute", x, y, "w", 98])
@@ -231,6 +238,51 @@ def run_item(item):
                                         "input": U.key(m),
                                         "what": f"{op} on one {dname} of {U.describe(m)} changed a second {dname} of the same graph",
                                         "item": item, "detail": None})
+        # attribute VALUES that are themselves mutable (a list of tags on an atom, an array-like on a bond): changing such a value in
+        # place on one graph must not show through the other (JSON does not carry free attributes and is left out)
+        ids = list(m.atoms)
+        if ids:
+            a0 = ids[0]
+            b0 = tuple(sorted(next(iter(m.bonds)))) if m.bonds else None
+            for dname in derivations(m.kind):
+                if dname == "json":
+                    continue
+                for side in ("edit-derived", "edit-source"):
+                    try:
+                        src = U.build(m)
+                        src.set_atom_attribute(a0, "tags", [1, 2])
+                        if b0:
+                            src.set_bond_attribute(*b0, "path", [0.5, {"k": 1}])
+                        der = derive(src, dname)
+                    except Exception:
+                        continue
+                    target, other = (der, src) if side == "edit-derived" else (src, der)
+
+                    def vals(g):
+                        r = []
+                        if a0 in g.atoms:
+                            r.append(repr(g.get_atom_attribute(a0, "tags")))
+                        if b0 and g.has_bond(*b0):
+                            r.append(repr(g.get_bond_attribute(*b0, "path")))
+                        return r
+                    try:
+                        before = vals(other)
+                        if a0 in target.atoms and target.get_atom_attribute(a0, "tags") is not None:
+                            target.get_atom_attribute(a0, "tags").append(7)
+                        if b0 and target.has_bond(*b0) and target.get_bond_attribute(*b0, "path") is not None:
+                            target.get_bond_attribute(*b0, "path")[1]["k"] = 2
+                        after = vals(other)
+                    except Exception:
+                        oc["edit-raised"] = oc.get("edit-raised", 0) + 1
+                        continue
+                    out["evals"] += 1
+                    out["distinct"] += 1
+                    oc["mutable-value-" + side] = oc.get("mutable-value-" + side, 0) + 1
+                    if before != after:
+                        out["viol"].append({"sig": f"C10/{E.SHORT[m.kind]}/{dname}/mutable-attribute-value/{side}", "input": U.key(m),
+                                            "what": f"a list stored as attribute value was changed in place on the "
+                                                    f"{'derived' if side == 'edit-derived' else 'source'} graph and the change shows on the "
+                                                    f"other one: {before} -> {after} ({dname} of {U.describe(m)})", "item": item, "detail": None})
         if not out["samples"]:
             out["samples"].append({"source": U.describe(m), "derivations": derivations(m.kind), "n_edits": len(edits(m))})
     return out
